@@ -10,7 +10,7 @@ DEFAULT_REPEAT_LIMIT = 3
 
 RET_RESULT = {
     'ok': 'CONTINUE', 'continue': 'CONTINUE', 'fail': 'FAIL_AND_CONTINUE', 'skip': 'SKIP', 'stop': 'STOP',
-    'fail_subtest': 'FAIL_SUBTEST', 'repeat': 'REPEAT',
+    'fail_subtest': 'FAIL_SUBTEST', 'repeat': 'REPEAT', 'slowrepeat': 'REPEAT', 'slowok': 'CONTINUE',
 }
 
 
@@ -54,7 +54,7 @@ class Run(object):
     self.calls.append((name, n))
     r = per_inv(beh.get('ret', ['ok']), n - 1)
     m = per_inv(beh.get('meas', 'none'), n - 1)
-    if r == 'hang':
+    if r in ('hang', 'hangdeaf'):
       result = 'TIMEOUT'
     elif r == 'raise':
       result = 'EXC:PhaseBoom'
@@ -68,7 +68,8 @@ class Run(object):
       result = 'EXC:InvalidPhaseResultError'
     else:
       result = RET_RESULT[r]
-    meas_outcome = {'none': None, 'pass': 'PASS', 'marg': 'PASS', 'fail': 'FAIL', 'unset': 'UNSET'}[m]
+    meas_outcome = {'none': None, 'pass': 'PASS', 'marg': 'PASS', 'fail': 'FAIL', 'unset': 'UNSET',
+                    'dimunset': 'UNSET', 'dimset': 'PASS'}[m]
     # a body that raised/hung after setting the measurement keeps the value it set
     hit_limit = result == 'REPEAT' and last_repeat
     terminal = result.startswith('EXC:') or result in ('TIMEOUT', 'STOP', 'KILLED')
@@ -105,6 +106,12 @@ class Run(object):
           # not among the test record's diagnoses
           diag.append('A')
           self.store.add('A')
+          continue
+        if d in ('AFlist', 'AF1', 'ABlist'):
+          for x in (['A'] if d == 'AF1' else ['A', 'B']):
+            (diag if d == 'ABlist' else fdiag).append(x)
+            self.diagnoses.append((x, d != 'ABlist'))
+            self.store.add(x)
           continue
         is_f = d.startswith('F')
         (fdiag if is_f else diag).append(d)
